@@ -8,6 +8,11 @@ Inductive obs := OOk (v : val) | OErr | OPanic.
 
 Inductive mobs := MRows (rows : list (string * string * val)) | MErr | MPanic.
 
+(* a request handed to httpx.Parse: form pairs (key, values) or a programmatic header map (None = nil list) *)
+Inductive direct :=
+| DForm (t : ty) (pairs : list (string * list jv))
+| DHeader (t : ty) (pairs : list (string * option (list jv))).
+
 Record case := mkcase {
   c_ty : ty;                      (* struct shape materialised with reflect.StructOf *)
   c_doc : jv;                     (* the JSON document (numbers as tokens, float oracle attached) *)
@@ -25,8 +30,12 @@ Record case := mkcase {
   c_float : list (option N * option N * option N);
                                   (* a number token into float32 and float64: Float64bits after the JSON route, after the
                                      YAML route, and of strconv.ParseFloat(token, bitsize) *)
-  c_marshal : option (list (option string * field) * list val * mobs)
+  c_marshal : option (list (option string * field) * list val * mobs);
                                   (* mapping.Marshal of a struct value: members (part name, declaration), values, result *)
+  c_readers : list (obs * obs);   (* (bytes entry point, reader entry point) on the same content: UnmarshalJsonBytes vs
+                                     UnmarshalJsonReader, UnmarshalYamlBytes vs UnmarshalYamlReader; also the empty and the
+                                     blank document, an already drained reader, a one-byte-at-a-time reader *)
+  c_direct : option (direct * obs) (* httpx.Parse called on a constructed request (GET query / POST form / header map) *)
 }.
 
 Definition res_matches (r : result val) (o : obs) : bool :=
@@ -84,6 +93,19 @@ Definition marshal_matches (r : result (list (string * string * val))) (o : mobs
   | _, _ => false
   end.
 
+(* nil and empty slices are identified (a nil header list leaves the field nil, an empty one makes it empty) *)
+Fixpoint norm_nil (v : val) : val :=
+  match v with
+  | VNilSlice => VSlice []
+  | VStruct l => VStruct (map norm_nil l)
+  | VPtr v' => VPtr (norm_nil v')
+  | _ => v
+  end.
+Definition has_nil_list (pairs : list (string * option (list jv))) : bool :=
+  existsb (fun kv => match snd kv with None => true | Some _ => false end) pairs.
+Definition direct_ty (d : direct) : ty := force_string (match d with DForm t _ | DHeader t _ => t end).
+Definition direct_doc (d : direct) : jv := match d with DForm _ p => form_doc p | DHeader _ p => header_doc p end.
+
 (* --- the transcription reproduces what the Go code did --- *)
 Definition model_ok (c : case) : bool :=
   let n := fuel_of (c_ty c) in
@@ -111,6 +133,15 @@ Definition model_ok (c : case) : bool :=
   match c_marshal c with
   | None => true
   | Some (fs, vs, o) => marshal_matches (marshal fs vs) o
+  end &&
+  match c_direct c with
+  | None => true
+  | Some (d, o) =>
+      let r := unmarshal (fuel_of (direct_ty d)) (direct_ty d) (direct_doc d) in
+      match r, o with
+      | Ok v, OOk w => val_eqb (norm_nil v) (norm_nil w)
+      | _, _ => res_matches r o
+      end
   end.
 
 Definition obs_eqb (a b : obs) : bool :=
@@ -176,7 +207,18 @@ Definition spec_ok_t (tol : tolerance) (c : case) : bool :=
   | Some o => obs_ok tol (force_string (c_ty c)) (c_doc c) o       (* form/path/header mode: same clauses *)
   end &&
   forallb (fun jyo => json_yaml_float_agree (fst (fst jyo)) (snd (fst jyo)) (snd jyo)) (c_float c) &&
-  match c_marshal c with Some (_, _, MPanic) => false | _ => true end.
+  match c_marshal c with Some (_, _, MPanic) => false | _ => true end &&
+  (* reader entry points: same verdict and same value as the bytes entry points, on every content *)
+  forallb (fun p => obs_eqb (fst p) (snd p)) (c_readers c) &&
+  (* httpx.Parse directly: form values arrive unchanged and count as present (blank is not empty); header maps with
+     empty / nil / several values never panic *)
+  match c_direct c with
+  | None => true
+  | Some (DHeader t p, o) =>
+      if has_nil_list p then match o with OPanic => false | _ => true end
+      else obs_ok tol (direct_ty (DHeader t p)) (header_doc p) o
+  | Some (d, o) => obs_ok tol (direct_ty d) (direct_doc d) o
+  end.
 
 (* the property *)
 Definition spec_ok (c : case) : bool := spec_ok_t TNone c.
